@@ -71,7 +71,7 @@ type elem struct {
 }
 
 var idStrings = []string{`"a"`, `""`, `"é\n\"q\""`, `"😀"`, `"123"`, `"null"`, `"with space"`, `" "`}
-var idNumbers = []string{`0`, `1`, `-1`, `42`, `9007199254740992`, `-9007199254740991`, `1.5`, `0.25`, `-3.125`, `1e2`, `1E2`, `12e-1`, `100`, `2.0`}
+var idNumbers = []string{`0`, `1`, `-1`, `42`, `9007199254740992`, `-9007199254740991`, `1.5`, `0.25`, `-3.125`, `1e2`, `1E2`, `12e-1`, `100`, `2.0`, `9223372036854775807`, `9223372036854775808`, `18446744073709551616`, `1e19`, `1e22`, `-9223372036854775809`, `1267650600228229401496703205376`}
 var idInvalid = []string{`true`, `false`, `[]`, `[1]`, `{}`, `{"a":1}`}
 
 func genID(rng *rand.Rand) (raw, kind string) {
